@@ -191,6 +191,10 @@ impl Inp {
                 Self::Literal { literal: left, .. },
                 Self::Literal { literal: right, .. },
             ) => left == right,
+            // Likewise for one and the same external command: its output matches the same words
+            // whatever fallback level it is offered at.
+            (Self::Command { cmd: left, .. }, Self::Command { cmd: right, .. }) => left == right,
+            (Self::Compadd { cmd: left, .. }, Self::Compadd { cmd: right, .. }) => left == right,
             _ => self == other,
         }
     }
